@@ -2,7 +2,7 @@ import JSight.Gen.DirTables
 /-!
 Model of `core/context_processing.go processContext`, `core/scan_project.go`
 (`closeLastExplicitContext`, `HasUnclosedExplicitContext`, `processContextEnd`, `processEOF`) and
-`core/compile_core_paste.go`, after the repairs F1/F23.
+`core/compile_core_paste.go`, after the repairs F1/F23/F38 (a path-bearing method is not hoisted to the top level any more: the URL does not admit it and the walk goes on).
 
 The Go code keeps a pointer `currentContextDirective` with a `Parent` chain and appends a new directive
 to its parent's `Children` (or to the root list) at creation.  The model keeps the chain as a stack of
@@ -73,18 +73,21 @@ termination_by fs => fs.length
 /-- `HasUnclosedExplicitContext` -/
 def anyExplicit (frames : List Frame) : Bool := frames.any (·.d.explicit)
 
+/-- what a frame admits: its kind admits the kind of the directive — except that a URL does not admit an HTTP
+method that carries its own path (such a method ends the URL's context) -/
+def pathMethodUnderURL (f d : Dir) : Bool := isHTTPMethod d.kind && d.hasPath && f.kind == Kind.URL
+
+def admitsDir (f d : Dir) : Bool := admits f.kind d.kind && !pathMethodUnderURL f d
+
 /-- `processContext`: the walk-up loop -/
 def place : List Frame → List Tree → Dir → Except CtxErr Ctx
   | [], roots, d =>
     if rootAdmits d.kind then .ok { frames := [{ d := d }], roots := roots }
     else .error (.incorrectContext d.id)
   | f :: below, roots, d =>
-    if admits f.d.kind d.kind then
-      if isHTTPMethod d.kind && d.hasPath && f.d.kind == Kind.URL then
-        if anyExplicit (f :: below) then .error (.pathMethodInExplicit d.id)
-        else .ok { frames := [{ d := d }], roots := closeAll (f :: below) roots }
-      else .ok { frames := { d := d } :: f :: below, roots := roots }
-    else if f.d.explicit then .error (.incorrectContext d.id)
+    if admitsDir f.d d then .ok { frames := { d := d } :: f :: below, roots := roots }
+    else if f.d.explicit then
+      (if admits f.d.kind d.kind then .error (.pathMethodInExplicit d.id) else .error (.incorrectContext d.id))
     else
       match below with
       | [] => place [] (roots ++ [f.tree]) d
